@@ -100,6 +100,18 @@ def check_cp(ck, L, X, names, comps, st):
         cjobs.append((fn, nn) + tuple(ccols))
     eres = L.multi(ejobs)
     cres = L.multi(cjobs)
+    # the same compound calls WITHOUT an error slot: bit-identical values, hence the 0 sentinel (never a partial sum) wherever the call fails
+    nres = execlib.Lib(L.config, env={'XV_NOSLOT': '1'}).multi(cjobs)
+    for fn, cr, nr in zip(cps, cres, nres):
+        g = grids[fn]
+        bad = np.nonzero((nr.v.view('u8') != cr.v.view('u8')) & ~(np.isnan(nr.v) & np.isnan(cr.v)))[0]
+        for r in bad[:2]:
+            name, j = names[r // len(g)], r % len(g)
+            ck.violation('c06:%s:value-without-error-slot-differs' % fn,
+                         '%s(%s,%s) returns %r without an error slot and %r (%s) with one' % (fn, show(name), ','.join(map(repr, g[j].tolist())), float(nr.v[r]),
+                                                                                         float(cr.v[r]), cr.msg(r) if cr.err[r] else 'success'),
+                         dict(call='%s(%s,%s)' % (fn, show(name), ','.join(map(repr, g[j].tolist()))), config=L.config, error_slot=False))
+        st['calls'] += len(nr)
     for fn, er, cr in zip(cps, eres, cres):
         g = grids[fn]
         ng = len(g)
@@ -192,7 +204,19 @@ def check_refractive(ck, L, X, names, comps, nist_names, st):
     nn = [r[0] for r in rows]; ee = np.array([r[1] for r in rows]); dd = np.array([r[2] for r in rows])
     re, im = L.multi([('Refractive_Index_Re', nn, ee, dd), ('Refractive_Index_Im', nn, ee, dd)])
     cx = L.special('Refractive_Index', s=nn, d=[ee, dd])
-    st['calls'] += 3 * len(rows) + fi.v.size * 2 + len(Zall)
+    # without an error slot: the same bits (0 / 0+0i wherever the call fails)
+    Ln = execlib.Lib(L.config, env={'XV_NOSLOT': '1'})
+    re0, im0 = Ln.multi([('Refractive_Index_Re', nn, ee, dd), ('Refractive_Index_Im', nn, ee, dd)])
+    cx0 = Ln.special('Refractive_Index', s=nn, d=[ee, dd])
+    for fn, a, b in (('Refractive_Index_Re', re, re0), ('Refractive_Index_Im', im, im0), ('Refractive_Index', cx, cx0)):
+        va, vb = a.v3[:, :2], b.v3[:, :2]
+        bad = np.nonzero(((va.view('u8') != vb.view('u8')) & ~(np.isnan(va) & np.isnan(vb))).any(axis=1))[0]
+        for r in bad[:2]:
+            ck.violation('c06:%s:value-without-error-slot-differs' % fn,
+                         '%s(%s,%r,%r) returns %r without an error slot and %r (%s) with one' % (fn, show(rows[r][0]), rows[r][1], rows[r][2], vb[r].tolist(), va[r].tolist(),
+                                                                                             a.msg(r) if a.err[r] else 'success'),
+                         dict(call='%s(%s,%r,%r)' % (fn, show(rows[r][0]), rows[r][1], rows[r][2]), config=L.config, error_slot=False))
+    st['calls'] += 6 * len(rows) + fi.v.size * 2 + len(Zall)
     eidx = {e: k for k, e in enumerate(ENERGIES)}
     nre = nim = nexp_fail = 0
     for r, (name, e, d) in enumerate(rows):
